@@ -3,7 +3,7 @@ Q4 shared sequence storage, W1 type-level witnesses."""
 import os, subprocess, tempfile
 from zw import walk, walk_nolambda, unwrap, short, Broken, calls, field_chain, VERIF
 
-PROTOCOL_BASES = ("op", "pred", "stringer", "builtin")
+PROTOCOL_BASES = ("op", "pred", "stringer", "builtin", "zw_cdom")   # shared, const objects: ops of a compiled query, constant domains
 STATE_MUTATORS = {"insert", "emplace", "emplace_back", "push_back", "erase", "clear", "operator[]", "try_emplace", "insert_or_assign",
                   "pop_back", "resize", "assign", "swap", "append"}
 
